@@ -321,6 +321,9 @@ def run(rep: Report, ctx: Any) -> str:
     # (vii) optional values of the document handed to operations that reject None
     _none_operations(rep, ctx, [f for f in funcs if not f.module.name.startswith(f"{PKG}.schema") or f in validators], validators)
 
+    # (viii) positional element accesses on document sequences that may be too short
+    _positional_accesses(rep, ctx, [f for f in funcs if not f.module.name.startswith(f"{PKG}.schema") or f in validators], validators)
+
     # ------------------------------------------------------------------------------------------------- R06.3
     rep.floor("dispatch_sites", len(ji.dispatches), 40)
     for dk, d in sorted(ji.dispatches.items(), key=lambda kv: (kv[1].template, kv[1].macro, kv[1].expr)):
@@ -332,6 +335,9 @@ def run(rep: Report, ctx: Any) -> str:
     for k, msg in sorted(ji.undefined_names.items()):
         if msg.startswith("macro ") and "is not defined in" in msg:
             rep.observe(f"{k[0]}: {msg} (imported but never used)")
+        elif msg.startswith("name `") and _only_asked_whether_defined(ctx, k[0], k[1], k[2]):
+            # asking whether a name is defined is not a use of it, and a use placed under that question is not reached without it
+            rep.ok("R06.3", f"{k[0]}::{k[1]}::{k[2]}", "unbound name", "read only under `is defined`")
         else:
             rep.fail("R06.3", f"{k[0]}::{k[1]}::{k[2]}", msg, where=f"{PKG}/templates/{k[0]}")
 
@@ -342,6 +348,94 @@ def run(rep: Report, ctx: Any) -> str:
     _exit_status(rep, ctx, cfgs)
     _diagnostics_returned(rep, ctx)
     return LEVEL
+
+
+def _only_asked_whether_defined(ctx: Any, tname: str, macro: str, name: str) -> bool:
+    """every place of the template (as rendered: a child of a layout is the layout with the child's blocks in place) that reads the
+    name NAME either asks `NAME is defined` / `NAME is undefined` - which is no use of it - or is reached only when that question
+    was answered `defined`: on every assignment of truth values to the atoms of the conditions it sits under (`{% if %}` / `elif` /
+    `else`, loop filters, the left operand of `and` / `or`, the test of a conditional expression) that lets it be reached.  A name
+    with no such place, or with one place that is not covered, stays reported."""
+    from jinja2 import nodes
+
+    from .. import tplq
+
+    ti = ctx.jinja.templates.get(tname)
+    if ti is None:
+        return False
+    start: list[Any] = [ti.macros[macro]] if macro in ti.macros else list(ti.tree.body) if macro == "<top>" else []
+    uses: list[tuple[tuple, tuple]] = []  # (guard nodes, polarities) per reading occurrence
+
+    def asks(t: Any) -> bool:
+        return isinstance(t, nodes.Test) and t.name in ("defined", "undefined") and isinstance(t.node, nodes.Name) and t.node.name == name
+
+    def visit(n: Any, gn: tuple, pol: tuple) -> None:
+        if isinstance(n, nodes.Macro) and n not in start:
+            return
+        if isinstance(n, nodes.Name):
+            if n.name == name and n.ctx == "load":
+                uses.append((gn, pol))
+            return
+        if asks(n):
+            for a in n.args:
+                visit(a, gn, pol)
+            return
+        if isinstance(n, nodes.If):
+            visit(n.test, gn, pol)
+            for b in n.body:
+                visit(b, gn + (n.test,), pol + (True,))
+            g2, p2 = gn + (n.test,), pol + (False,)
+            for el in n.elif_:
+                visit(el.test, g2, p2)
+                for b in el.body:
+                    visit(b, g2 + (el.test,), p2 + (True,))
+                g2, p2 = g2 + (el.test,), p2 + (False,)
+            for b in n.else_ or []:
+                visit(b, g2, p2)
+            return
+        if isinstance(n, nodes.For):
+            visit(n.iter, gn, pol)
+            visit(n.target, gn, pol)
+            if n.test is not None:
+                visit(n.test, gn, pol)
+            for b in n.body:
+                visit(b, gn + ((n.test,) if n.test is not None else ()), pol + ((True,) if n.test is not None else ()))
+            for b in n.else_ or []:
+                visit(b, gn, pol)
+            return
+        if isinstance(n, (nodes.And, nodes.Or)):
+            visit(n.left, gn, pol)
+            visit(n.right, gn + (n.left,), pol + (isinstance(n, nodes.And),))
+            return
+        if isinstance(n, nodes.CondExpr):
+            visit(n.test, gn, pol)
+            visit(n.expr1, gn + (n.test,), pol + (True,))
+            if n.expr2 is not None:
+                visit(n.expr2, gn + (n.test,), pol + (False,))
+            return
+        for c in n.iter_child_nodes():
+            visit(c, gn, pol)
+
+    for n in start:
+        visit(n, (), ())
+    if not uses:
+        return True if _asked_somewhere(start, asks) else False
+    for gn, pol in uses:
+        # the atoms that ask about NAME, among the atoms of the conditions above this place
+        asking = {tplq.expr_text(t): t.name == "defined" for g in gn for t in g.find_all(nodes.Test) if asks(t)}
+        asking.update({tplq.expr_text(g): g.name == "defined" for g in gn if asks(g)})
+        if not asking:
+            return False
+        fr = tplq.Frag("expr", name, 0, tuple((tplq.expr_text(g), p) for g, p in zip(gn, pol)), gn, ())
+        if len(tplq.guard_atoms(fr)) > 10 or not any(tplq.implies(fr, a, v) for a, v in asking.items()):
+            return False
+    return True
+
+
+def _asked_somewhere(start: list[Any], asks: Any) -> bool:
+    from jinja2 import nodes
+
+    return any(asks(t) for n in start for t in ([n] if asks(n) else []) + list(n.find_all(nodes.Test)))
 
 
 def _callee(ix: Any, f: FuncInfo, c: ast.Call) -> FuncInfo | None:
@@ -602,7 +696,7 @@ def _cycle_pattern(ix: Any, it: Any, comp: list[str], edges: dict[str, set[str]]
     fs = [it.func_by_qual[q] for q in comp]
     reasons = _Why()
     # (5) every cycle of the component contains a call that descends into a strict sub-object of a parameter
-    pat, why = _structural(ix, fs, edges or {})
+    pat, why = _structural(ix, fs, edges or {}, it)
     if pat is not None:
         return pat, ""
     reasons.add(1, why)
@@ -1888,9 +1982,57 @@ def _origins_through_call(e: ast.Call, lc: Any, params: set[str], seen: frozense
     from ..astutil import Locals
 
     ix, f, stack = at
-    h = _callee(ix, f, e)
-    if h is None or h.qual in stack or len(stack) >= 3:
+    h0 = _callee(ix, f, e)
+    if h0 is None or len(stack) >= 3:
         return set()
+    # a method called through self / cls runs whichever override the class of the object defines: the result has the origins of
+    # what any of them hands back - provided each of them is followed (hands back something reached from its own parameters, or
+    # nothing at all); one that hands back a value of unknown origin leaves the whole call without origin
+    hs = _overrides(ix, f, e, h0)
+    if any(h.qual in stack for h in hs):
+        return set()
+    out: set[tuple[str, bool]] = set()
+    for h in hs:
+        o = _origins_of_result(e, h, lc, params, seen, depth, at, elements)
+        if o is None or (not o and len(hs) > 1 and not _hands_back_nothing(h, elements)):
+            return set()
+        out |= o
+    return out
+
+
+def _overrides(ix: Any, f: FuncInfo, e: ast.Call, h0: FuncInfo) -> list[FuncInfo]:
+    """the methods a call `self.m(...)` / `cls.m(...)` made in f can run: the one the class of f sees, and every redefinition of it
+    in a subclass of that class"""
+    hs = [h0]
+    if isinstance(e.func, ast.Attribute) and isinstance(e.func.value, ast.Name) and e.func.value.id in ("self", "cls") and f.cls is not None:
+        for k in ix.subclasses(f.cls):
+            h = k.methods.get(e.func.attr)
+            if h is not None and h not in hs:
+                hs.append(h)
+    return hs
+
+
+def _hands_back_nothing(h: FuncInfo, elements: bool) -> bool:
+    """every value the function returns is an empty container written out (asked for the elements of the result), resp. None"""
+    own = _own_nodes(h.node)
+    if any(isinstance(n, (ast.Yield, ast.YieldFrom)) for n in own):
+        return False
+    for n in own:
+        if isinstance(n, ast.Return) and n.value is not None:
+            v = n.value
+            empty = (isinstance(v, (ast.Tuple, ast.List, ast.Set)) and not v.elts) or (isinstance(v, ast.Dict) and not v.keys) \
+                or (isinstance(v, ast.Call) and not v.args and not v.keywords and call_name(v) in ("tuple", "list", "set", "frozenset", "dict"))
+            if not (empty if elements else (isinstance(v, ast.Constant) and v.value is None)):
+                return False
+    return True
+
+
+def _origins_of_result(e: ast.Call, h: FuncInfo, lc: Any, params: set[str], seen: frozenset[str], depth: int,
+                       at: tuple[Any, FuncInfo, tuple[str, ...]], elements: bool) -> set[tuple[str, bool]] | None:
+    """the origins of what the call e, run by h, hands back (of its elements), in terms of the caller's parameters"""
+    from ..astutil import Locals
+
+    ix, f, stack = at
     own = _own_nodes(h.node)
     hlc = Locals(h.node)
     hparams = {p.arg for p in h.params}
@@ -1916,17 +2058,23 @@ def _origins_through_call(e: ast.Call, lc: Any, params: set[str], seen: frozense
     return out
 
 
-def _structural(ix: Any, fs: list[FuncInfo], edges: dict[str, set[str]]) -> tuple[str | None, str]:
+def _structural(ix: Any, fs: list[FuncInfo], edges: dict[str, set[str]], it: Any = None) -> tuple[str | None, str]:
     """(5) structural recursion on the finite document / property tree.  A call site DESCENDS when it hands on (as an argument or as the
     receiver) something reached from a parameter of the caller by attribute access, subscription or iteration, without handing on
     that parameter itself; `super().m()` descends the (finite) class hierarchy.  Every cycle of the component must contain a
-    descending call: the calls that do not descend form an acyclic graph."""
+    descending call: the calls that do not descend form an acyclic graph.
+    Descending is a ranking only on a structure that is a finite TREE, which depends on where the structure comes from: the objects
+    of the validated document model and of the parser's own classes are trees (pydantic refuses a value that contains itself and
+    builds new objects; the parser builds its objects bottom-up), so is whatever a JSON text is parsed into; what a YAML loader
+    hands back is not - an alias may refer to the node it stands in (`a: &a {b: *a}`), the value is a graph that can contain itself,
+    and a descent into it needs a visited set (argument 1).  A descent through a parameter that can hold such a value is no descent."""
     from ..astutil import Locals
 
     quals = {f.qual: f for f in fs}
     forward: dict[str, set[str]] = {q: set() for q in quals}
     located: set[tuple[str, str]] = set()
     n_desc = 0
+    notes: list[str] = []
     for f in fs:
         lc = Locals(f.node)
         params = {p.arg for p in f.params}
@@ -1951,9 +2099,13 @@ def _structural(ix: Any, fs: list[FuncInfo], edges: dict[str, set[str]]) -> tupl
             handed = list(c.args) + [k.value for k in c.keywords] + ([c.func.value] if isinstance(c.func, ast.Attribute) else [])
             orig = [_origins(a, lc, params, at=(ix, f, ())) for a in handed]
             whole = {p for o in orig for p, s in o if not s}
-            if any(s and p not in whole for o in orig for p, s in o):
+            through = sorted({p for o in orig for p, s in o if s and p not in whole})
+            graphs = [p for p in through if it is not None and (f.qual, p) in _graph_holders(ix, it)]
+            if through and not graphs:
                 n_desc += 1
                 continue
+            for p in graphs:
+                notes.append(f"`{p}` of {f.name} can be what a YAML loader handed back - a graph that may contain itself, not a tree")
             for g in tgts:
                 forward[f.qual].add(g.qual)
     # an edge of the call graph whose call site is not found (a call through a variable, getattr, ...) cannot be shown to descend
@@ -1981,8 +2133,104 @@ def _structural(ix: Any, fs: list[FuncInfo], edges: dict[str, set[str]]) -> tupl
             r = cyc(q, [])
             if r:
                 return None, ("not structural: the calls " + " -> ".join(x.rsplit(".", 1)[-1] for x in r)
-                              + " hand on no strict sub-object of a parameter (or hand the whole parameter on as well)")
+                              + " hand on no strict sub-object of a parameter (or hand the whole parameter on as well)"
+                              + "".join("; " + x for x in dict.fromkeys(notes)))
     return f"structural (every cycle passes one of {n_desc} calls that descend into a sub-object of a parameter)", ""
+
+
+def _yaml_load(f: FuncInfo, c: ast.Call) -> bool:
+    """the call parses YAML: a function of a yaml module (`yaml.safe_load`, ...) or the `load` / `load_all` of a loader object
+    (an object built by `YAML(...)`, whatever the local that holds it is called)"""
+    from ..astutil import Locals
+
+    cn = call_name(c)
+    last = cn.rsplit(".", 1)[-1]
+    if last not in ("load", "load_all", "safe_load", "safe_load_all", "full_load", "unsafe_load", "compose", "round_trip_load"):
+        return False
+    if "yaml" in cn.rsplit(".", 1)[0].lower() or (last != "load" and "." not in cn):
+        return True
+    recv = c.func.value if isinstance(c.func, ast.Attribute) else None
+    vals = [recv] if isinstance(recv, ast.Call) else []
+    if isinstance(recv, ast.Name):
+        vals = [v for _, _, v in Locals(f.node).defs.get(recv.id, []) if v is not None]
+    return any(isinstance(v, ast.Call) and "yaml" in call_name(v).lower() for v in vals)
+
+
+_GRAPH_HOLDERS: dict[int, set[tuple[str, str]]] = {}
+
+
+def _graph_holders(ix: Any, it: Any) -> set[tuple[str, str]]:
+    """(function, local or parameter) that can hold - or hold a part of, or a container of - what a YAML loader handed back.  Forward
+    from the load calls to a fixed point: through locals (an element of such a value is one), parameters (the arguments of every
+    call of a function of the repository), results of functions of the repository, parts (attribute, item, .items() / .values() /
+    .get()) and copying wrappers.  A value that went through anything else (model_validate, json.loads, a constructor) is a new
+    structure."""
+    from ..astutil import Locals
+
+    if id(ix) in _GRAPH_HOLDERS:
+        return _GRAPH_HOLDERS[id(ix)]
+    funcs = list(ix.all_functions)
+    if not any(isinstance(c, ast.Call) and _yaml_load(f, c) for f in funcs for c in _own_nodes(f.node)):
+        _GRAPH_HOLDERS[id(ix)] = set()
+        return set()
+    names: set[tuple[str, str]] = set()
+    rets: set[str] = set()
+    callees: dict[int, list[FuncInfo]] = {}
+
+    def of(f: FuncInfo, c: ast.Call) -> list[FuncInfo]:
+        if id(c) not in callees:
+            callees[id(c)] = _callees(ix, it, f, c)
+        return callees[id(c)]
+
+    def t(f: FuncInfo, e: ast.AST | None, d: int = 0) -> bool:
+        if e is None or d > 12:
+            return False
+        if isinstance(e, ast.Name):
+            return (f.qual, e.id) in names
+        if isinstance(e, (ast.Attribute, ast.Subscript, ast.Starred, ast.Await, ast.NamedExpr)):
+            return t(f, e.value, d + 1)
+        if isinstance(e, (ast.IfExp, ast.BoolOp)):
+            return any(t(f, x, d + 1) for x in _alternatives(e))
+        if isinstance(e, (ast.Tuple, ast.List, ast.Set)):
+            return any(t(f, x, d + 1) for x in e.elts)
+        if isinstance(e, ast.Dict):
+            return any(t(f, x, d + 1) for x in e.values)
+        if isinstance(e, (ast.ListComp, ast.SetComp, ast.GeneratorExp)):
+            return t(f, e.elt, d + 1)
+        if isinstance(e, ast.DictComp):
+            return t(f, e.value, d + 1)
+        if isinstance(e, ast.Call):
+            if _yaml_load(f, e):
+                return True
+            hs = of(f, e)
+            if hs:
+                return any(h.qual in rets for h in hs)
+            if isinstance(e.func, ast.Attribute) and e.func.attr in _ELEMENT_METHODS:
+                return t(f, e.func.value, d + 1)
+            if call_name(e).rsplit(".", 1)[-1] in _WRAPPERS:
+                return any(t(f, x, d + 1) for x in e.args)
+        return False
+
+    info = [(f, Locals(f.node), [n for n in _own_nodes(f.node) if isinstance(n, (ast.Call, ast.Return))]) for f in funcs]
+    for _ in range(12):
+        before = (len(names), len(rets))
+        for f, lc, nodes_ in info:
+            for name, defs in lc.defs.items():
+                if (f.qual, name) not in names and any(v is not None and not k.startswith(("aug", "with", "except")) and t(f, v) for k, _, v in defs):
+                    names.add((f.qual, name))
+            for n in nodes_:
+                if isinstance(n, ast.Return):
+                    if n.value is not None and f.qual not in rets and t(f, n.value):
+                        rets.add(f.qual)
+                    continue
+                for h in of(f, n):
+                    for p in h.params:
+                        if (h.qual, p.arg) not in names and t(f, _arg_for(h, n, p.arg)):
+                            names.add((h.qual, p.arg))
+        if (len(names), len(rets)) == before:
+            break
+    _GRAPH_HOLDERS[id(ix)] = names
+    return names
 
 
 # ---------------------------------------------------------------------------------------------------------------------------------
@@ -2794,6 +3042,196 @@ _TRUTHY: tuple = ("truthy",)
 _FALSY: tuple = ("falsy",)
 _NONE: tuple = ("k", "c", None)
 _PURE_CALLS = _READONLY | _WRAPPERS | {"next", "filter", "map", "range", "hasattr", "getattr", "callable", "format", "pformat"}
+
+
+# ---------------------------------------------------------------------------------------------------------------------------------
+# R06.2 (viii).  The document decides how long its lists and texts are - the empty one is always among the inputs.  Taking the element
+# at a fixed position (`x[0]`, `x[-1]`, `next(iter(x))`, `x.pop()`) is total only where the length is known to suffice.
+
+def _positional_uses(fn: ast.AST) -> list[tuple[str, ast.AST, ast.expr, int, tuple[str, ...]]]:
+    """(operation, node, sequence, elements needed, exceptions raised when there are fewer)"""
+    out: list[tuple[str, ast.AST, ast.expr, int, tuple[str, ...]]] = []
+    for n in _own_nodes(fn):
+        if isinstance(n, ast.Subscript) and isinstance(n.ctx, ast.Load):
+            i = n.slice
+            neg = isinstance(i, ast.UnaryOp) and isinstance(i.op, ast.USub)
+            i = i.operand if neg else i  # type: ignore[union-attr]
+            if isinstance(i, ast.Constant) and isinstance(i.value, int) and not isinstance(i.value, bool):
+                need = i.value if neg else i.value + 1
+                if need > 0:
+                    out.append((f"[{'-' if neg else ''}{i.value}]", n, n.value, need, ("IndexError",)))
+        elif isinstance(n, ast.Call) and call_name(n) == "next" and len(n.args) == 1 and not n.keywords:
+            a = n.args[0]
+            a = a.args[0] if isinstance(a, ast.Call) and call_name(a) in ("iter", "reversed") and len(a.args) == 1 else a
+            out.append(("next()", n, a, 1, ("StopIteration",)))
+        elif isinstance(n, ast.Call) and isinstance(n.func, ast.Attribute) and n.func.attr in ("pop", "popleft", "popitem") and not n.args \
+                and not n.keywords:
+            out.append((f".{n.func.attr}()", n, n.func.value, 1, ("IndexError", "KeyError")))
+    return out
+
+
+def _known_length(e: ast.AST | None, lc: Any, it: Any, seen: frozenset[str] = frozenset()) -> int:
+    """a number of elements the value has whatever the document says: a display, the result of split(sep) / partition(sep), a tuple
+    of known shape; a local has the least of what its definitions have"""
+    if e is None:
+        return 0
+    av = it.node_av.get(id(e))
+    if av is not None and av.tup is not None:
+        return len(av.tup)
+    if isinstance(e, (ast.Tuple, ast.List)):
+        return sum(1 for x in e.elts if not isinstance(x, ast.Starred))
+    if isinstance(e, ast.Call) and isinstance(e.func, ast.Attribute):
+        if e.func.attr in ("split", "rsplit") and e.args and not (isinstance(e.args[0], ast.Constant) and e.args[0].value is None):
+            return 1
+        if e.func.attr in ("partition", "rpartition"):
+            return 3
+    if isinstance(e, ast.Name) and e.id not in seen:
+        defs = lc.defs.get(e.id, [])
+        if defs and all(k == "assign" and v is not None for k, _, v in defs):
+            return min(_known_length(v, lc, it, seen | {e.id}) for _, _, v in defs)
+    return 0
+
+
+def _length_bound(atom: ast.expr, val: bool, text: str, f: FuncInfo, ix: Any) -> int:
+    """the least number of elements `text` has when the atom of a test has the truth value val: its own truth (a non-empty
+    container), or a comparison of its len() with an integer constant (written out, or a constant of a module)"""
+    def const(e: ast.expr) -> int | None:
+        if isinstance(e, ast.Constant):
+            return e.value if isinstance(e.value, int) and not isinstance(e.value, bool) else None
+        d = dotted(e)
+        r = ix.resolve(f.module, d) if d else None
+        if r is not None and r[0] == "var":
+            v = r[1][0].variables.get(r[1][1])
+            return const(v) if isinstance(v, ast.Constant) else None
+        return None
+
+    def is_len(e: ast.expr) -> bool:
+        return isinstance(e, ast.Call) and call_name(e) == "len" and len(e.args) == 1 and norm(e.args[0]) == text
+
+    if norm(_strip_len(atom)) == text:
+        return 1 if val else 0
+    if not (isinstance(atom, ast.Compare) and len(atom.ops) == 1):
+        return 0
+    op, left, right = type(atom.ops[0]), atom.left, atom.comparators[0]
+    if is_len(right) and not is_len(left):
+        left, right = right, left
+        op = {ast.Gt: ast.Lt, ast.Lt: ast.Gt, ast.GtE: ast.LtE, ast.LtE: ast.GtE}.get(op, op)
+    k = const(right) if is_len(left) else None
+    if k is None:
+        return 0
+    if val:
+        return {ast.Eq: k, ast.Gt: k + 1, ast.GtE: k}.get(op, 0)
+    return {ast.NotEq: k, ast.Lt: k, ast.LtE: k + 1}.get(op, 0)
+
+
+def _long_enough(f: FuncInfo, ix: Any, node: ast.AST, seq: ast.expr, need: int) -> bool:
+    """on every way to the access a test has established that the sequence (same text) has at least `need` elements - inside the
+    expression (arms of a conditional expression, later operands of and / or, the conditions of a comprehension) or on every path
+    of the statement CFG from the function's entry and from every statement that binds the sequence anew"""
+    from ..astutil import stmt_of
+    from ..cfg import own_exprs
+
+    text = norm(seq)
+    found = False
+
+    def enough(facts: list[tuple[ast.expr, bool]]) -> bool:
+        return any(_length_bound(a, v, text, f, ix) >= need for a, v in facts)
+
+    def rec(cur: ast.AST, guarded: bool) -> None:
+        nonlocal found
+        if cur is node:
+            found = found or guarded
+            return
+        if isinstance(cur, ast.IfExp):
+            rec(cur.test, guarded)
+            rec(cur.body, guarded or enough(_implied(cur.test, True)))
+            rec(cur.orelse, guarded or enough(_implied(cur.test, False)))
+            return
+        if isinstance(cur, ast.BoolOp):
+            g = guarded
+            for v in cur.values:
+                rec(v, g)
+                g = g or enough(_implied(v, isinstance(cur.op, ast.And)))
+            return
+        if isinstance(cur, (ast.ListComp, ast.SetComp, ast.GeneratorExp, ast.DictComp)):
+            g = guarded
+            for gen in cur.generators:
+                rec(gen.iter, g)
+                for c in gen.ifs:
+                    rec(c, g)
+                    g = g or enough(_implied(c, True))
+            for part in ([cur.key, cur.value] if isinstance(cur, ast.DictComp) else [cur.elt]):
+                rec(part, g)
+            return
+        for k in ast.iter_child_nodes(cur):
+            if not isinstance(k, (ast.stmt, ast.ExceptHandler)):
+                rec(k, guarded)
+
+    st = stmt_of(f.node, node)
+    if st is None:
+        return False
+    for e in own_exprs(st):
+        rec(e, False)
+    if found:
+        return True
+    fl = _Flow(f, ix)
+    root = _root(seq) if isinstance(seq, (ast.Attribute, ast.Subscript)) else (seq.id if isinstance(seq, ast.Name) else None)
+
+    def rebinds(s_: object) -> bool:
+        if not isinstance(s_, ast.AST) or s_ is st:
+            return False
+        for n in walk_own(s_):  # type: ignore[arg-type]
+            if isinstance(n, (ast.Name, ast.Attribute, ast.Subscript)) and isinstance(getattr(n, "ctx", None), (ast.Store, ast.Del)) \
+                    and (norm(n) == text or (isinstance(n, ast.Name) and n.id == root)):
+                return True
+        return isinstance(s_, ast.ExceptHandler) and s_.name == root
+
+    def passes_guard(a: object, lab: bool | None) -> bool:
+        if lab is None or not isinstance(a, (ast.If, ast.While)):
+            return False
+        return enough(_implied(a.test, lab))
+
+    starts = [_ENTRY] + [s_ for s_ in fl.cfg.stmts() if rebinds(s_)]
+    edges0 = [(a, lab, b) for a in starts for b, lab in fl.out(a)]
+    return not fl.reach(edges0, [st], stop_edge=passes_guard)
+
+
+def _positional_accesses(rep: Report, ctx: Any, funcs: list[FuncInfo], validators: list[FuncInfo]) -> None:
+    """Instances: every access to the element at a fixed position - `x[i]` with an integer constant i, `next(iter(x))` without a
+    default, `x.pop()` - whose sequence the abstract interpreter derives from the document; inside a pydantic validation callback
+    every such access (all it handles is the document, and what it raises besides ValueError / AssertionError is not wrapped).
+    Obligation: the sequence has that many elements whatever the document says (a display, split(sep), a tuple of known shape), or
+    a test of its truth / of its len() against a constant has established it on every way there, or a try around the access (in a
+    private helper: around every call of it) catches what the access raises on a sequence that is too short."""
+    from ..astutil import Locals, role_anon
+
+    ix = ctx.py
+    it, _ = ctx.flow
+    n_acc = 0
+    for f in funcs:
+        lc = None
+        for what, node, seq, need, excs in _positional_uses(f.node):
+            av = it.node_av.get(id(seq))
+            derived = av is not None and bool(av.labels & {RAW, RAW_NONSTR, UNKNOWN})
+            if not derived and f not in validators:
+                continue
+            if av is not None and av.types and av.types <= {"dict", "None"}:
+                continue  # a key of a mapping, not a position
+            n_acc += 1
+            lc = lc or Locals(f.node)
+            ok = _known_length(seq, lc, it) >= need or _long_enough(f, ix, node, seq, need)
+            bad: list[str] = []
+            if not ok:
+                hs = handlers_around(f.node, node)
+                bad = [e for e in excs if not caught(e, hs)]
+                if bad and f not in validators:
+                    bad = _escaping_callers(ix, f, bad, 0)
+            rep.check(not bad, "R06.2", f"{short(f)}::element {what} of {role_anon(seq, f.node)[:50]}",
+                      f"`{norm(node)[:60]}` takes the element at a fixed position of `{norm(seq)[:40]}`, whose length the document decides "
+                      f"(an empty list / text is a possible input) and that no test has shown to have {need} element(s) on every way "
+                      f"there: {' / '.join(bad)} instead of a diagnostic" + (" (not wrapped into ValidationError)" if f in validators else ""),
+                      where(f, node), lhs=f"needs {need} element(s)", rhs="known length | truth / len() test on every way | try")
+    rep.floor("positional_accesses_on_document_sequences", n_acc, 3)
 
 
 class _NotFollowed(Exception):
